@@ -634,6 +634,11 @@ def unary_terms(X, lvl=2):
             yield _t1("tensor_method", "{a}.trace()", X, lambda x: x.trace(), lambda A: m_unary(np.trace, A, floor_fn=lambda M: M.mag))
             yield _t1("linalg", "Det({a})", X, LA.Det, m_det)
             yield _t1("linalg", "Inv({a})", X, LA.Inv, m_inv)
+            # the same matrices in other units (entries ~ 1e-7 and ~ 1e6: determinants ~ 1e-14 .. 1e-21 and ~ 1e12 .. 1e18): inverse and
+            # determinant are homogeneous functions, no absolute threshold may enter
+            for sc_ in (1e-7, 1e6):
+                yield _t1("linalg", f"Inv({sc_:g}*" + "{a})", X, lambda x, sc_=sc_: LA.Inv(sc_ * x), lambda A, sc_=sc_: m_inv(MV(A.kind, A.a * sc_)))
+                yield _t1("linalg", f"Det({sc_:g}*" + "{a})", X, lambda x, sc_=sc_: LA.Det(sc_ * x), lambda A, sc_=sc_: m_det(MV(A.kind, A.a * sc_)))
             yield _t1("np_function", "np.linalg.det({a})", X, np.linalg.det, m_det)
             yield _t1("np_function", "np.linalg.inv({a})", X, np.linalg.inv, m_inv)
             yield _t1("np_function", "np.einsum('...ii->...',{a})", X, lambda x: np.einsum("...ii->...", x),
